@@ -1,5 +1,6 @@
 //! Child of `mach::program`: read access to the private link object.
 use super::*;
+use crate::vk;
 
 pub(crate) fn link_of(p: &Program) -> &Link {
     &p.link
@@ -13,3 +14,53 @@ pub(crate) fn direct_address(p: &Program) -> Address {
 pub(crate) fn set_direct_address(p: &mut Program, a: Address) {
     p.direct_address = a;
 }
+
+// ---------------------------------------------------------------------------------------------------------------
+// C01 / C20: sealing the program (`Program::link`): whatever is located at the very end of the program -- the else label of
+// `IF X THEN END` on the last line, a trailing line without code that is the target of a GOTO -- must stay inside the program,
+// in front of the address at which direct statements are compiled.
+
+//@ prop: C01 C20
+//@ tier: quick
+//@ unwind: 10
+//@ encodes: Program::link (closing End, direct_address); Link::ends_with_symbol; Link::push_ifnot; Link::push_goto; Link::push_symbol; Link::next_symbol; Link::link
+//@ bounds: program of one line = [branch, last instruction]; branch = IFNOT to a statement-local label or GOTO to a line with any number 1..=65529; the label / that line located at the end of the program (or, for the line, in front of the last instruction); last instruction END or CLEAR
+vk_harness!(c20_labels_at_the_end_of_the_program_stay_in_the_program, {
+    let mut p = Program::default();
+    let local = vk::any_bool();
+    let at_end = vk::any_bool();
+    let last_is_end = vk::any_bool();
+    let line = vk::any_u16();
+    vk::assume(line >= 1 && line <= 65529);
+    p.link.push_symbol(0);
+    let label = if local {
+        let s = p.link.next_symbol();
+        p.link.push_ifnot(1..2, s).unwrap();
+        s
+    } else {
+        p.link.push_goto(1..2, Some(line)).unwrap();
+        line as Symbol
+    };
+    if !at_end && !local {
+        p.link.push_symbol(label);
+    }
+    p.link.push(if last_is_end { Opcode::End } else { Opcode::Clear }).unwrap();
+    if at_end || local {
+        p.link.push_symbol(label);
+    }
+    let (direct, indirect_errors, errors) = p.link();
+    vk_check!(indirect_errors.is_empty() && errors.is_empty(), "C20: the program links cleanly");
+    vk_check!(direct == p.link.len() && direct >= 2, "C20: direct statements are compiled behind the program");
+    vk_check!(matches!(p.link.get(direct - 1), Some(Opcode::End)), "C01: the program is closed by an END in front of the direct line");
+    let target = match p.link.get(0) {
+        Some(Opcode::IfNot(a)) => *a,
+        Some(Opcode::Jump(a)) => *a,
+        _ => usize::MAX,
+    };
+    vk_check!(target < direct, "C20: a branch inside the program never lands on the direct line (a label at the end of the program is in front of the closing END)");
+    vk_cover!(local && last_is_end, "reach: IF X THEN END as the last statement");
+    vk_cover!(!local && at_end && last_is_end, "reach: GOTO to a trailing line without code behind END");
+    core::mem::forget(p);
+    core::mem::forget(indirect_errors);
+    core::mem::forget(errors);
+});
